@@ -179,6 +179,9 @@ Proof. induction 1; simpl; lia. Qed.
 Lemma sumf_map {A B} (g : A -> B) (f : B -> nat) l : sumf f (map g l) = sumf (fun x => f (g x)) l.
 Proof. induction l as [|a l IH]; simpl; [reflexivity|]. rewrite IH. reflexivity. Qed.
 
+Lemma sumf_add {A} (f g : A -> nat) l : sumf (fun x => f x + g x) l = sumf f l + sumf g l.
+Proof. induction l as [|a l IH]; simpl; [reflexivity|]. rewrite IH. lia. Qed.
+
 Lemma sumf_set_nth {A} (f : A -> nat) : forall l k x y, nth_error l k = Some x ->
   sumf f (set_nth k y l) + f x = sumf f l + f y.
 Proof.
@@ -255,7 +258,7 @@ Definition is_start_op (o : op) : bool := match o with OStartTask _ true false f
 Lemma spawn_spec : forall cmds t, is_runs cmds = true ->
   exists rows more,
     tasks (fst (spawn t cmds)) = tasks (fst t) ++ rows /\ map t_name rows = names cmds /\
-    Forall (fun r => t_state r = IDLE) rows /\
+    Forall (fun r => t_state r = IDLE /\ t_processed r = false) rows /\
     snd (spawn t cmds) = snd t ++ more /\ forallb is_start_op more = true /\
     acts (fst (spawn t cmds)) = acts (fst t) /\ pend (fst (spawn t cmds)) = pend (fst t) /\
     wf_state (fst (spawn t cmds)) = wf_state (fst t) /\ backlog (fst (spawn t cmds)) = backlog (fst t) /\
@@ -275,7 +278,7 @@ Proof.
     exists (row :: rows), (OStartTask (length (tasks (fst t))) true false false :: more).
     split; [rewrite T, <- app_assoc; reflexivity|].
     split; [unfold names in *; cbn [map cmd_key t_name row]; rewrite N; reflexivity|].
-    split; [constructor; [reflexivity|exact I]|].
+    split; [constructor; [split; reflexivity|exact I]|].
     split; [rewrite O, <- app_assoc; reflexivity|].
     split; [cbn; exact P|]. repeat split; assumption.
 Qed.
@@ -294,6 +297,113 @@ Proof.
     destruct c; try discriminate Hc. simpl. rewrite (IH Hr). reflexivity. }
   unfold rearrange. rewrite Hf, (split_at_state_runs l Hr []).
   pose proof (sort_cmds_perm l) as Hp. split; [exact Hp|]. unfold is_runs in *. rewrite <- (forallb_perm _ _ _ Hp). exact Hr.
+Qed.
+
+(* ------------------------------------------------------------ the dispatch of resume: starts tasks and
+   re-issues the start requests of the tasks that are still IDLE *)
+Definition is_runs2 (l : list cmd) : bool :=
+  forallb (fun c => match c with CRunTask _ _ false _ => true | CRunExisting _ true false => true | _ => false end) l.
+Definition names2 (l : list cmd) : list nat := flat_map (fun c => match c with CRunTask n _ _ _ => [n] | _ => [] end) l.
+Definition is_start_op2 (o : op) : bool :=
+  match o with OStartTask _ true false false | OStartTask _ false false true => true | _ => false end.
+
+Lemma names2_runs l : is_runs l = true -> names2 l = names l.
+Proof.
+  induction l as [|c l IH]; intros H; [reflexivity|]. simpl in H. apply andb_true_iff in H. destruct H as [Hc H].
+  destruct c; try discriminate Hc. unfold names2, names in *. simpl. rewrite (IH H). reflexivity.
+Qed.
+
+Section Spawn2.
+Variable sp : spec.
+
+Fixpoint spawn2 (t : tx) (cmds : list cmd) : tx :=
+  match cmds with
+  | [] => t
+  | CRunTask name _ _ trig :: rest => spawn2 (run_task_cmd sp t name false trig) rest
+  | CRunExisting tid _ _ :: rest => spawn2 (fst t, snd t ++ [OStartTask tid false false true]) rest
+  | _ :: rest => spawn2 t rest
+  end.
+
+Lemma loop_spawn2 : forall cmds t, is_runs2 cmds = true -> wf_state (fst t) = RUNNING ->
+  loop sp t cmds = (spawn2 t cmds, FOk).
+Proof.
+  induction cmds as [|c rest IH]; intros t Hr Hw; [reflexivity|].
+  simpl in Hr. apply andb_true_iff in Hr. destruct Hr as [Hc Hr].
+  destruct c as [name e waiting trig|tid reset rerun| | |]; try discriminate Hc.
+  - destruct waiting; [discriminate|].
+    cbn [loop spawn2]. rewrite Hw. change (is_completed RUNNING) with false. change (state_eqb RUNNING PAUSED) with false. cbv iota.
+    apply IH; [exact Hr|exact Hw].
+  - destruct reset; [|discriminate]. destruct rerun; [discriminate|].
+    cbn [loop spawn2]. rewrite Hw. change (is_completed RUNNING) with false. change (state_eqb RUNNING PAUSED) with false. cbv iota.
+    assert (Et : run_existing_cmd t tid true false = (fst t, snd t ++ [OStartTask tid false false true])).
+    { unfold run_existing_cmd. rewrite andb_false_r. reflexivity. }
+    rewrite Et. apply IH; [exact Hr|exact Hw].
+Qed.
+
+Lemma spawn2_spec : forall cmds t, is_runs2 cmds = true ->
+  exists rows more,
+    tasks (fst (spawn2 t cmds)) = tasks (fst t) ++ rows /\ map t_name rows = names2 cmds /\
+    Forall (fun r => t_state r = IDLE /\ t_processed r = false) rows /\
+    snd (spawn2 t cmds) = snd t ++ more /\ forallb is_start_op2 more = true /\
+    acts (fst (spawn2 t cmds)) = acts (fst t) /\ pend (fst (spawn2 t cmds)) = pend (fst t) /\
+    wf_state (fst (spawn2 t cmds)) = wf_state (fst t) /\ backlog (fst (spawn2 t cmds)) = backlog (fst t) /\
+    calls (fst (spawn2 t cmds)) = calls (fst t) /\ wf_created (fst (spawn2 t cmds)) = wf_created (fst t).
+Proof.
+  induction cmds as [|c rest IH]; intros t Hr.
+  - exists [], []. rewrite !app_nil_r. repeat split; auto.
+  - simpl in Hr. apply andb_true_iff in Hr. destruct Hr as [Hc Hr].
+    destruct c as [name e waiting trig|tid reset rerun| | |]; try discriminate Hc.
+    + destruct waiting; [discriminate|]. cbn [spawn2].
+      set (row := mkTrow name IDLE false [] false false false (next_uid (fst t)) (trig_list trig)).
+      change (run_task_cmd sp t name false trig)
+        with (add_task (fst t) row, snd t ++ [OStartTask (length (tasks (fst t))) true false false]).
+      destruct (IH (add_task (fst t) row, snd t ++ [OStartTask (length (tasks (fst t))) true false false]) Hr)
+        as [rows [more [T [N [I [O [P [A [Pe [W [B [C Cr]]]]]]]]]]]].
+      cbn [fst snd add_task tasks acts pend wf_state backlog calls wf_created] in T, O, A, Pe, W, B, C, Cr.
+      exists (row :: rows), (OStartTask (length (tasks (fst t))) true false false :: more).
+      split; [rewrite T, <- app_assoc; reflexivity|].
+      split; [unfold names2 in *; cbn [map flat_map app t_name row]; rewrite N; reflexivity|].
+      split; [constructor; [split; reflexivity|exact I]|].
+      split; [rewrite O, <- app_assoc; reflexivity|].
+      split; [cbn; exact P|]. repeat split; assumption.
+    + cbn [spawn2].
+      destruct (IH (fst t, snd t ++ [OStartTask tid false false true]) Hr)
+        as [rows [more [T [N [I [O [P [A [Pe [W [B [C Cr]]]]]]]]]]]].
+      cbn [fst snd] in T, O, A, Pe, W, B, C, Cr.
+      exists rows, (OStartTask tid false false true :: more).
+      split; [exact T|]. split; [unfold names2 in *; cbn [flat_map app]; exact N|]. split; [exact I|].
+      split; [rewrite O, <- app_assoc; reflexivity|].
+      split; [cbn; exact P|]. repeat split; assumption.
+Qed.
+End Spawn2.
+
+Lemma rearrange_runs2 l : is_runs2 l = true -> Permutation l (rearrange l) /\ is_runs2 (rearrange l) = true.
+Proof.
+  intros Hr. assert (Hf : filter (fun c => match c with CNoop => false | _ => true end) l = l).
+  { induction l as [|c r IH]; [reflexivity|]. simpl in Hr. apply andb_true_iff in Hr. destruct Hr as [Hc Hr].
+    destruct c; try discriminate Hc; simpl; rewrite (IH Hr); reflexivity. }
+  assert (Hsp : forall pre, split_at_state l pre = None).
+  { clear Hf. induction l as [|c r IH]; intros pre; [reflexivity|]. simpl in Hr. apply andb_true_iff in Hr. destruct Hr as [Hc Hr].
+    destruct c; try discriminate Hc; simpl; apply IH; exact Hr. }
+  unfold rearrange. rewrite Hf, (Hsp []).
+  pose proof (sort_cmds_perm l) as Hp. split; [exact Hp|]. unfold is_runs2 in *. rewrite <- (forallb_perm _ _ _ Hp). exact Hr.
+Qed.
+
+Lemma is_runs2_okcs l : is_runs2 l = true -> okcs l.
+Proof.
+  intros H. apply Forall_forall. intros c Hc. unfold is_runs2 in H. rewrite forallb_forall in H. specialize (H c Hc).
+  destruct c as [? ? w ?|? a b| | |]; try discriminate H.
+  - destruct w; [discriminate|reflexivity].
+  - destruct a; [|discriminate]. destruct b; [discriminate|reflexivity].
+Qed.
+
+Lemma names2_perm l l' : Permutation l l' -> Permutation (names2 l) (names2 l').
+Proof.
+  induction 1; simpl.
+  - apply Permutation_refl.
+  - unfold names2 in *. simpl. apply Permutation_app_head. exact IHPermutation.
+  - unfold names2. simpl. rewrite !app_assoc. apply Permutation_app_tail. apply Permutation_app_comm.
+  - eapply perm_trans; eassumption.
 Qed.
 
 (* ================================================================= the accounting invariant *)
@@ -336,8 +446,10 @@ Definition final_states (s : st) (p : nat) : list state :=
 Definition prescribed_states (sp : spec) (p k : nat) : list state :=
   map (fun j => state_of_outcome (outcome sp p j)) (seq 0 k).
 
+(* the routes of a completed task execution have been dispatched once it is `processed` (at once when the
+   workflow is RUNNING, at the next resume when it completed while the workflow was PAUSED) *)
 Definition expanded (sp : spec) (r : trow) (n : nat) : nat :=
-  if is_completed (t_state r) then count_occ Nat.eq_dec (routes sp (t_name r) (t_state r)) n else 0.
+  if is_completed (t_state r) && t_processed r then count_occ Nat.eq_dec (routes sp (t_name r) (t_state r)) n else 0.
 
 (* Workflow.check_and_complete's decision once every task execution is completed *)
 Definition verdict_of (l : list trow) : state :=
@@ -345,9 +457,9 @@ Definition verdict_of (l : list trow) : state :=
   else if negb (existsb (fun r => state_eqb (t_state r) ERROR && negb (t_err_handled r)) l) then SUCCESS
   else ERROR.
 
-Record D (sp : spec) (s : st) (ops : list op) : Prop := {
+Record D (sp : spec) (pz : bool) (s : st) (ops : list op) : Prop := {
   D_created : wf_created s = true;
-  D_wf : wf_state s = RUNNING \/ is_completed (wf_state s) = true;
+  D_wf : wf_state s = RUNNING \/ (pz = true /\ wf_state s = PAUSED) \/ is_completed (wf_state s) = true;
   D_live : live_wf_state (wf_state s) = true;
   D_bl : backlog s = [];
   D_done : is_completed (wf_state s) = true ->
@@ -370,12 +482,15 @@ Record D (sp : spec) (s : st) (ops : list op) : Prop := {
   D_items : forallb ditem (pend s) = true;
   D_ops : forallb dop ops = true;
   D_eh : forall tid r, nth_error (tasks s) tid = Some r -> t_state r = ERROR -> t_err_handled r = has_err_route sp (t_name r);
-  D_verdict : is_completed (wf_state s) = true -> wf_state s = verdict_of (tasks s)
+  D_verdict : is_completed (wf_state s) = true -> wf_state s = verdict_of (tasks s);
+  D_proc : wf_state s <> PAUSED -> forall tid r, nth_error (tasks s) tid = Some r ->
+           is_completed (t_state r) = true -> t_processed r = true;
+  D_np : forall tid r, nth_error (tasks s) tid = Some r -> is_completed (t_state r) = false -> t_processed r = false
 }.
 
 (* before the start *)
-Definition DInv (sp : spec) (s : st) : Prop :=
-  (wf_created s = false /\ pend s = [] /\ tasks s = [] /\ acts s = [] /\ calls s = []) \/ D sp s [].
+Definition DInv (sp : spec) (pz : bool) (s : st) : Prop :=
+  (wf_created s = false /\ pend s = [] /\ tasks s = [] /\ acts s = [] /\ calls s = []) \/ D sp pz s [].
 
 Lemma res_of_frame s s' p i : tasks s' = tasks s -> acts s' = acts s -> res_of s' p i = res_of s p i.
 Proof. intros Ht Ha. destruct i; try reflexivity. unfold res_of, name_of_act, get_task, get_act. rewrite Ht, Ha. reflexivity. Qed.
@@ -440,10 +555,11 @@ Qed.
 
 Section Tx.
 Variable sp : spec.
+Variable pz : bool.
 
-Lemma commit_D s ops : D sp s ops -> D sp (commit (s, ops)) [].
+Lemma commit_D s ops : D sp pz s ops -> D sp pz (commit (s, ops)) [].
 Proof.
-  intros [H1 H2 H3 H4 H5 H6 H7a H7 H8 H9 H10 H11 H12 H13 H14 H15 H16]. unfold commit. cbn [fst snd].
+  intros [H1 H2 H3 H4 H5 H6 H7a H7 H8 H9 H10 H11 H12 H13 H14 H15 H16 H17 H18]. unfold commit. cbn [fst snd].
   destruct ops as [|o l] eqn:Eo; [constructor; assumption|]. rewrite <- Eo in *. clear Eo o l.
   constructor; cbn [add_pend wf_created wf_state backlog tasks acts pend calls]; try assumption.
   - intros aid a Ha. rewrite <- (H9 aid a Ha). unfold n_act. cbn [add_pend pend]. rewrite sumf_app. simpl. lia.
@@ -455,13 +571,14 @@ Proof.
   - reflexivity.
 Qed.
 
-Lemma hdr_D s s1 ops : D sp s ops -> hdr_only s s1 -> live_wf_state (wf_state s1) = true ->
-  (wf_state s1 = RUNNING \/ is_completed (wf_state s1) = true) ->
+Lemma hdr_D s s1 ops : D sp pz s ops -> hdr_only s s1 -> live_wf_state (wf_state s1) = true ->
+  (wf_state s1 = RUNNING \/ (pz = true /\ wf_state s1 = PAUSED) \/ is_completed (wf_state s1) = true) ->
   (is_completed (wf_state s1) = true -> forall tid r, nth_error (tasks s) tid = Some r -> is_completed (t_state r) = true) ->
   (is_completed (wf_state s1) = true -> wf_state s1 = verdict_of (tasks s)) ->
-  D sp s1 ops.
+  (wf_state s1 <> PAUSED -> wf_state s <> PAUSED) ->
+  D sp pz s1 ops.
 Proof.
-  intros [H1 H2 H3 H4 H5 H6 H7a H7 H8 H9 H10 H11 H12 H13 H14 H15 H16] Hh Hl Hw Hd Hv.
+  intros [H1 H2 H3 H4 H5 H6 H7a H7 H8 H9 H10 H11 H12 H13 H14 H15 H16 H17 H18] Hh Hl Hw Hd Hv Hnp.
   assert (Hf : tasks s1 = tasks s /\ acts s1 = acts s /\ pend s1 = pend s /\ backlog s1 = backlog s /\
                wf_created s1 = wf_created s /\ calls s1 = calls s) by (destruct Hh as [->|[y ->]]; repeat split; reflexivity).
   destruct Hf as [F1 [F2 [F3 [F4 [F5 F6]]]]].
@@ -469,11 +586,12 @@ Proof.
     rewrite ?(pending_results_frame s s1 _ F1 F2); rewrite ?F1, ?F2, ?F3, ?F4, ?F5, ?F6; try assumption.
   - intros aid a Ha. destruct (H8 aid a Ha) as [A [B C]]. unfold get_task in *. rewrite F1. repeat split; assumption.
   - intros p. rewrite (pending_results_frame s s1 p F1 F2), F3. apply H12.
+  - intros Hq. apply H17, Hnp, Hq.
 Qed.
 
-Lemma run_op_D s o ops : D sp s (o :: ops) -> D sp (run_ops sp s [o]) ops.
+Lemma run_op_D s o ops : D sp pz s (o :: ops) -> D sp pz (run_ops sp s [o]) ops.
 Proof.
-  intros HD. pose proof HD as [H1 H2 H3 H4 H5 H6 H7a H7 H8 H9 H10 H11 H12 H13 H14 H15 H16].
+  intros HD. pose proof HD as [H1 H2 H3 H4 H5 H6 H7a H7 H8 H9 H10 H11 H12 H13 H14 H15 H16 H17 H18].
   simpl in H14. apply andb_true_iff in H14. destruct H14 as [Ho H14]. cbn [run_ops].
   destruct o as [tid f r x|aid| |tid]; simpl in Ho; try discriminate.
   - constructor; cbn [add_pend wf_created wf_state backlog tasks acts pend calls]; try assumption.
@@ -491,26 +609,30 @@ Proof.
       rewrite !app_nil_r. exact H12.
     + rewrite forallb_app, H13. reflexivity.
   - destruct (cac_spec s H3) as [s1 [E1 [Hh [Hl1 [Hr1 Hq1]]]]]. rewrite E1.
-    assert (HD' : D sp s ops).
+    assert (HD' : D sp pz s ops).
     { constructor; assumption. }
     apply (hdr_D s s1 ops HD' Hh Hl1).
-    + destruct H2 as [Hw|Hc].
-      * eapply cac_not_paused; eassumption.
-      * right. rewrite (Hq1 ltac:(intros E; rewrite E in Hc; discriminate)). exact Hc.
-    + intros Hc1. destruct H2 as [Hw|Hc]; [eapply cac_done; eassumption|apply H5, Hc].
-    + intros Hc1. destruct H2 as [Hw|Hc]; [eapply cac_verdict; eassumption|].
-      rewrite (Hq1 ltac:(intros E; rewrite E in Hc; discriminate)). apply H16, Hc.
+    + destruct H2 as [Hw|[[Hz Hpa]|Hc]].
+      * destruct (cac_not_paused s s1 E1 Hw) as [Q|Q]; [left; exact Q|right; right; exact Q].
+      * right. left. split; [exact Hz|]. rewrite (Hq1 ltac:(intros E; rewrite E in Hpa; discriminate)). exact Hpa.
+      * right. right. rewrite (Hq1 ltac:(intros E; rewrite E in Hc; discriminate)). exact Hc.
+    + intros Hc1. destruct H2 as [Hw|[[Hz Hpa]|Hc]]; [eapply cac_done; eassumption| |apply H5, Hc].
+      rewrite (Hq1 ltac:(intros E; rewrite E in Hpa; discriminate)) in Hc1. rewrite Hpa in Hc1. discriminate.
+    + intros Hc1. destruct H2 as [Hw|[[Hz Hpa]|Hc]]; [eapply cac_verdict; eassumption| |].
+      * rewrite (Hq1 ltac:(intros E; rewrite E in Hpa; discriminate)) in Hc1. rewrite Hpa in Hc1. discriminate.
+      * rewrite (Hq1 ltac:(intros E; rewrite E in Hc; discriminate)). apply H16, Hc.
+    + intros Hnp Hpa. apply Hnp. rewrite (Hq1 ltac:(intros E; rewrite E in Hpa; discriminate)). exact Hpa.
 Qed.
 
-Lemma run_ops_D : forall ops s, D sp s ops -> D sp (run_ops sp s ops) [].
+Lemma run_ops_D : forall ops s, D sp pz s ops -> D sp pz (run_ops sp s ops) [].
 Proof.
   induction ops as [|o ops IH]; intros s H; [exact H|].
   rewrite run_ops_cons. apply IH. apply run_op_D. exact H.
 Qed.
 
-Lemma take_ptq_D s ops pre post : pend s = pre ++ IPtq ops :: post -> D sp s [] -> D sp (set_pend s (pre ++ post)) ops.
+Lemma take_ptq_D s ops pre post : pend s = pre ++ IPtq ops :: post -> D sp pz s [] -> D sp pz (set_pend s (pre ++ post)) ops.
 Proof.
-  intros Hp [H1 H2 H3 H4 H5 H6 H7a H7 H8 H9 H10 H11 H12 H13 H14 H15 H16].
+  intros Hp [H1 H2 H3 H4 H5 H6 H7a H7 H8 H9 H10 H11 H12 H13 H14 H15 H16 H17 H18].
   assert (Hn : forall aid, n_act (set_pend s (pre ++ post)) ops aid = n_act s [] aid).
   { intros aid. unfold n_act. cbn [set_pend pend]. rewrite Hp, !sumf_app. simpl. lia. }
   constructor; cbn [set_pend wf_created wf_state backlog tasks acts pend calls]; try assumption.
@@ -553,21 +675,22 @@ Qed.
 
 Section Events.
 Variable sp : spec.
+Variable pz : bool.
 Hypothesis Hs : simple_b sp = true.
 
 (* results on their way refer to existing action executions *)
-Lemma D_result_valid s ops aid r : D sp s ops -> In (IResult aid r) (pend s) -> aid < length (acts s).
+Lemma D_result_valid s ops aid r : D sp pz s ops -> In (IResult aid r) (pend s) -> aid < length (acts s).
 Proof.
   intros HD Hin. destruct (Nat.lt_ge_cases aid (length (acts s))) as [H|H]; [exact H|exfalso].
-  pose proof (D_tok0 _ _ _ HD aid H) as H0. unfold n_act in H0.
+  pose proof (D_tok0 _ _ _ _ HD aid H) as H0. unfold n_act in H0.
   pose proof (sumf_in_le (item_act aid) (pend s) _ Hin) as Hle. cbn [item_act] in Hle. rewrite Nat.eqb_refl in Hle. lia.
 Qed.
 
 Lemma drop_item_D s it pre post : pend s = pre ++ it :: post ->
   (forall aid, item_act aid it = 0) -> (forall p, res_of s p it = []) ->
-  D sp s [] -> D sp (set_pend s (pre ++ post)) [].
+  D sp pz s [] -> D sp pz (set_pend s (pre ++ post)) [].
 Proof.
-  intros Hp Hz Hr [H1 H2 H3 H4 H5 H6 H7a H7 H8 H9 H10 H11 H12 H13 H14 H15 H16].
+  intros Hp Hz Hr [H1 H2 H3 H4 H5 H6 H7a H7 H8 H9 H10 H11 H12 H13 H14 H15 H16 H17 H18].
   assert (Hn : forall aid, n_act (set_pend s (pre ++ post)) [] aid = n_act s [] aid).
   { intros aid. unfold n_act. cbn [set_pend pend]. rewrite Hp, !sumf_app. simpl. rewrite Hz. lia. }
   constructor; cbn [set_pend wf_created wf_state backlog tasks acts pend calls]; try assumption.
@@ -582,17 +705,17 @@ Proof.
 Qed.
 
 (* start_task for an IDLE task *)
-Lemma start_new_D s tid r : D sp s [] -> nth_error (tasks s) tid = Some r -> t_state r = IDLE ->
-  D sp (commit (check_affected sp (schedule_action (task_set_state s tid RUNNING, []) tid) tid)) [].
+Lemma start_new_D s tid r : D sp pz s [] -> nth_error (tasks s) tid = Some r -> t_state r = IDLE ->
+  D sp pz (commit (check_affected sp (schedule_action (task_set_state s tid RUNNING, []) tid) tid)) [].
 Proof.
-  intros HD Hn Hi. pose proof HD as [H1 H2 H3 H4 H5 H6 H7a H7 H8 H9 H10 H11 H12 H13 H14 H15 H16].
+  intros HD Hn Hi. pose proof HD as [H1 H2 H3 H4 H5 H6 H7a H7 H8 H9 H10 H11 H12 H13 H14 H15 H16 H17 H18].
   rewrite nojoin_check_affected by (apply simple_nojoin; exact Hs).
   assert (Hlt : tid < length (tasks s)) by (apply nth_error_Some; congruence).
   unfold schedule_action, task_set_state. cbn [fst snd app].
   unfold get_task. rewrite (nth_error_nth' _ _ dummy_trow _ Hn).
   set (r' := t_set_state r RUNNING). set (a := mkArow tid RUNNING false).
   cbn [upd_task acts]. set (aid := length (acts s)).
-  match goal with |- D sp (commit (?s2, ?o)) [] => change (D sp (commit (s2, o)) []); apply commit_D end.
+  match goal with |- D sp pz (commit (?s2, ?o)) [] => change (D sp pz (commit (s2, o)) []); apply commit_D end.
   assert (Hnot : forall k b, nth_error (acts s) k = Some b -> a_task b <> tid) by (apply (H7a tid r Hn Hi)).
   assert (Hwf : is_completed (wf_state s) = false).
   { destruct (is_completed (wf_state s)) eqn:E; [|reflexivity]. specialize (H5 eq_refl tid r Hn). rewrite Hi in H5. discriminate. }
@@ -644,8 +767,9 @@ Proof.
   - intros n Hnn. specialize (H11 n Hnn). unfold rows_named in *. cbn [add_act upd_task tasks].
     pose proof (sumf_set_nth (fun x => if Nat.eqb (t_name x) n then 1 else 0) (tasks s) tid r r' Hn) as E1.
     pose proof (sumf_set_nth (fun x => expanded sp x n) (tasks s) tid r r' Hn) as E2.
-    cbv beta in E1, E2. unfold expanded in E2 at 2 4. cbn [r' t_set_state t_state t_name] in E1, E2. rewrite Hi in E2.
-    cbn [is_completed mem existsb state_eqb orb] in E2. lia.
+    cbv beta in E1, E2. cbn [r' t_set_state t_state t_name] in E1.
+    assert (Er0 : expanded sp r n = 0) by (unfold expanded; rewrite Hi; reflexivity).
+    assert (Er1 : expanded sp r' n = 0) by reflexivity. lia.
   - intros p. specialize (H12 p). unfold nth_call in *. cbn [add_act upd_task calls].
     assert (Ef : final_states (add_act (upd_task s tid r') a) p = final_states s p).
     { unfold final_states. cbn [add_act upd_task tasks]. apply (flat_map_set_nth_same _ _ _ r r' Hn).
@@ -663,6 +787,12 @@ Proof.
     + injection Hk as <-. discriminate Hy.
     + apply (H15 k y Hk Hy).
   - intros Hc. rewrite Hc in Hwf. discriminate.
+  - intros Hq k y Hk Hy. rewrite Hrow in Hk. destruct (Nat.eqb k tid) eqn:E.
+    + injection Hk as <-. discriminate Hy.
+    + apply (H17 Hq k y Hk Hy).
+  - intros k y Hk Hy. rewrite Hrow in Hk. destruct (Nat.eqb k tid) eqn:E.
+    + injection Hk as <-. cbn [r' t_set_state t_processed]. apply (H18 tid r Hn). rewrite Hi. reflexivity.
+    + apply (H18 k y Hk Hy).
 Qed.
 
 Lemma nth_bump : forall l n p, nth p (bump l n) 0 = nth p l 0 + (if Nat.eqb p n then 1 else 0).
@@ -678,13 +808,13 @@ Lemma prescribed_S p k : prescribed_states sp p (S k) = prescribed_states sp p k
 Proof. unfold prescribed_states. rewrite seq_S, map_app. reflexivity. Qed.
 
 (* the executor runs an action: the attempt number of its task name fixes the outcome *)
-Lemma exec_D s aid pre post : pend s = pre ++ IExec aid :: post -> D sp s [] ->
+Lemma exec_D s aid pre post : pend s = pre ++ IExec aid :: post -> D sp pz s [] ->
   let s0 := set_pend s (pre ++ post) in
   let name := t_name (get_task s0 (a_task (get_act s0 aid))) in
   let res := nth (nth_call s0 name) (ts_outs (get_ts sp name)) OOk in
-  D sp (add_pend (set_calls s0 (bump (calls s0) name)) (IResult aid res)) [].
+  D sp pz (add_pend (set_calls s0 (bump (calls s0) name)) (IResult aid res)) [].
 Proof.
-  intros Hp HD s0 name res. pose proof HD as [H1 H2 H3 H4 H5 H6 H7a H7 H8 H9 H10 H11 H12 H13 H14 H15 H16].
+  intros Hp HD s0 name res. pose proof HD as [H1 H2 H3 H4 H5 H6 H7a H7 H8 H9 H10 H11 H12 H13 H14 H15 H16 H17 H18].
   assert (Ename : name = name_of_act s aid) by reflexivity.
   assert (Eres : res = outcome sp name (nth_call s name)) by reflexivity.
   clearbody name res.
@@ -733,7 +863,7 @@ Lemma complete_pre_simple s ops tid x r :
   nth_error (tasks s) tid = Some r -> t_state r = RUNNING -> wf_state s = RUNNING ->
   (x = SUCCESS \/ x = ERROR \/ x = CANCELLED) ->
   exists r3 cmds ops',
-    t_name r3 = t_name r /\ t_state r3 = x /\ (x = ERROR -> t_err_handled r3 = has_err_route sp (t_name r)) /\
+    t_name r3 = t_name r /\ t_state r3 = x /\ t_processed r3 = true /\ (x = ERROR -> t_err_handled r3 = has_err_route sp (t_name r)) /\
     is_runs cmds = true /\ names cmds = routes sp (t_name r) x /\ length cmds <= spec_size sp /\
     (ops' = ops \/ ops' = ops ++ [OCheck]) /\
     complete_pre sp (s, ops) tid x = PreCmds (upd_task s tid r3, ops') cmds.
@@ -755,7 +885,8 @@ Proof.
   unfold task_set_state. rewrite upd_task_thrice.
   destruct (Hnx tid) as [N1 [N2 N3]].
   eexists. exists (map (to_cmd sp tid) nx). eexists.
-  split; [|split; [|split; [|split; [exact N1|split; [exact N2|split; [|split; [|reflexivity]]]]]]].
+  split; [|split; [|split; [|split; [|split; [exact N1|split; [exact N2|split; [|split; [|reflexivity]]]]]]]].
+  - reflexivity.
   - reflexivity.
   - reflexivity.
   - intros Ex. cbn [t_set_processed t_err_handled]. rewrite Ex. cbn [state_eqb]. apply Heh. exact Ex.
@@ -768,15 +899,15 @@ Lemma complete_simple f s ops tid x r :
   nth_error (tasks s) tid = Some r -> t_state r = RUNNING -> wf_state s = RUNNING -> backlog s = [] ->
   (x = SUCCESS \/ x = ERROR \/ x = CANCELLED) ->
   exists r3 cmds ops',
-    t_name r3 = t_name r /\ t_state r3 = x /\ (x = ERROR -> t_err_handled r3 = has_err_route sp (t_name r)) /\
+    t_name r3 = t_name r /\ t_state r3 = x /\ t_processed r3 = true /\ (x = ERROR -> t_err_handled r3 = has_err_route sp (t_name r)) /\
     is_runs cmds = true /\ Permutation (names cmds) (routes sp (t_name r) x) /\
     (ops' = ops \/ ops' = ops ++ [OCheck]) /\
     complete_task sp f (s, ops) tid x = (spawn sp (upd_task s tid r3, ops') cmds, FOk).
 Proof.
   intros Hf Hn Hst Hw Hb Hx.
-  destruct (complete_pre_simple s ops tid x r Hn Hst Hw Hx) as [r3 [cmds [ops' [A1 [A2 [Aeh [A3 [A4 [A5 [A6 A7]]]]]]]]]].
+  destruct (complete_pre_simple s ops tid x r Hn Hst Hw Hx) as [r3 [cmds [ops' [A1 [A2 [Apr [Aeh [A3 [A4 [A5 [A6 A7]]]]]]]]]]].
   destruct (rearrange_runs cmds A3) as [Hperm Hruns].
-  exists r3, (rearrange cmds), ops'. split; [exact A1|]. split; [exact A2|]. split; [exact Aeh|]. split; [exact Hruns|].
+  exists r3, (rearrange cmds), ops'. split; [exact A1|]. split; [exact A2|]. split; [exact Apr|]. split; [exact Aeh|]. split; [exact Hruns|].
   split; [rewrite <- A4; unfold names; apply Permutation_sym, Permutation_map; exact Hperm|]. split; [exact A6|].
   rewrite complete_task_eq. destruct f as [|f]; [lia|]. rewrite A7.
   rewrite dispatch_eq. destruct f as [|f]; [lia|]. cbv zeta. cbn [fst upd_task backlog]. rewrite Hb.
@@ -819,11 +950,81 @@ Lemma rows_named_count (rows : list trow) n :
   sumf (fun r => if Nat.eqb (t_name r) n then 1 else 0) rows = count_occ Nat.eq_dec (map t_name rows) n.
 Proof. rewrite count_occ_sumf, sumf_map. reflexivity. Qed.
 
-(* an action result is accepted: the task completes and its routes are dispatched *)
-Lemma result_D s aid res pre post : pend s = pre ++ IResult aid res :: post -> D sp s [] ->
-  D sp (match do_result sp (set_pend s (pre ++ post)) aid res with (s1, Ok) => s1 | (_, _) => set_pend s (pre ++ post) end) [].
+Lemma upd_task_twice s tid a b : upd_task (upd_task s tid a) tid b = upd_task s tid b.
 Proof.
-  intros Hp HD. pose proof HD as [H1 H2 H3 H4 H5 H6 H7a H7 H8 H9 H10 H11 H12 H13 H14 H15 H16].
+  assert (Htw : forall {A} n (u v : A) l, set_nth n v (set_nth n u l) = set_nth n v l).
+  { intros A n u v l. revert n. induction l as [|y l IH]; intros n; [destruct n; reflexivity|].
+    destruct n as [|n]; simpl; [reflexivity|]. rewrite IH. reflexivity. }
+  unfold upd_task. cbn. rewrite Htw. reflexivity.
+Qed.
+
+(* Task.complete while the workflow is PAUSED: the task gets its final state, nothing is dispatched and the
+   task stays unprocessed (its routes are computed again by resume) *)
+Lemma complete_pre_paused s ops tid x r :
+  nth_error (tasks s) tid = Some r -> t_state r = RUNNING -> wf_state s = PAUSED ->
+  (x = SUCCESS \/ x = ERROR \/ x = CANCELLED) ->
+  exists r3, t_name r3 = t_name r /\ t_state r3 = x /\ t_processed r3 = t_processed r /\
+    (x = ERROR -> t_err_handled r3 = has_err_route sp (t_name r)) /\
+    complete_pre sp (s, ops) tid x = PreIgnored (upd_task s tid r3, ops).
+Proof.
+  intros Hn Hst Hw Hx.
+  assert (Hlt : tid < length (tasks s)) by (apply nth_error_Some; congruence).
+  assert (E0 : get_task s tid = r) by (unfold get_task; apply nth_error_nth'; exact Hn).
+  assert (E1 : get_task (task_set_state s tid x) tid = t_set_state r x).
+  { unfold get_task, task_set_state. cbn [upd_task tasks]. rewrite E0. apply nth_error_nth'. apply nth_error_set_nth_same. exact Hlt. }
+  assert (Hsk : is_skipped x = false) by (destruct Hx as [->|[->| ->]]; reflexivity).
+  destruct (find_next_simple sp Hs (t_set_state r x)) as [nx [Hfn [Heh Hnx]]].
+  { cbn [t_set_state t_state]. exact Hx. }
+  cbn [t_set_state t_name t_state] in Heh.
+  unfold complete_pre. cbn [fst snd]. rewrite E0, Hst, Hsk. cbn [is_completed mem existsb state_eqb orb andb negb].
+  rewrite E1. change (wf_state (task_set_state s tid x)) with (wf_state s). rewrite Hw.
+  cbn [state_eqb orb]. rewrite Hfn. cbv zeta.
+  change (wf_state (upd_task (task_set_state s tid x) tid _)) with (wf_state s). rewrite Hw.
+  change (is_paused PAUSED) with true. cbv iota.
+  unfold task_set_state. rewrite upd_task_twice.
+  eexists. split; [|split; [|split; [|split; [|reflexivity]]]].
+  - reflexivity.
+  - reflexivity.
+  - reflexivity.
+  - intros Ex. cbn [t_err_handled]. rewrite Ex. cbn [state_eqb]. apply Heh. exact Ex.
+Qed.
+
+Lemma complete_any f s ops tid x r :
+  spec_size sp + 3 < f -> nth_error (tasks s) tid = Some r -> t_state r = RUNNING ->
+  (wf_state s = RUNNING \/ wf_state s = PAUSED) -> backlog s = [] -> (x = SUCCESS \/ x = ERROR \/ x = CANCELLED) ->
+  exists r3 rows Ops S,
+    t_name r3 = t_name r /\ t_state r3 = x /\ (x = ERROR -> t_err_handled r3 = has_err_route sp (t_name r)) /\
+    (wf_state s = RUNNING -> t_processed r3 = true /\ Permutation (map t_name rows) (routes sp (t_name r) x)) /\
+    (wf_state s = PAUSED -> t_processed r3 = t_processed r /\ rows = []) /\
+    Forall (fun y => t_state y = IDLE /\ t_processed y = false) rows /\
+    tasks S = set_nth tid r3 (tasks s) ++ rows /\ acts S = acts s /\ pend S = pend s /\ wf_state S = wf_state s /\
+    backlog S = backlog s /\ calls S = calls s /\ wf_created S = wf_created s /\
+    (forall k, sumf (op_act k) Ops = sumf (op_act k) ops) /\ (forallb dop ops = true -> forallb dop Ops = true) /\
+    complete_task sp f (s, ops) tid x = ((S, Ops), FOk).
+Proof.
+  intros Hf Hn Hst Hw Hb Hx. destruct Hw as [Hw|Hw].
+  - destruct (complete_simple f s ops tid x r Hf Hn Hst Hw Hb Hx) as [r3 [cmds [ops' [A1 [A2 [Apr [Aeh [A3 [A4 [A5 A6]]]]]]]]]].
+    destruct (spawn_spec sp cmds (upd_task s tid r3, ops') A3) as [rows [more [T [N [I [O [P [Ac [Pe [W [B [C Cr]]]]]]]]]]]].
+    destruct (spawn sp (upd_task s tid r3, ops') cmds) as [S Ops] eqn:Esp. cbn [fst snd upd_task tasks acts pend wf_state backlog calls wf_created] in T, O, Ac, Pe, W, B, C, Cr.
+    exists r3, rows, Ops, S. split; [exact A1|]. split; [exact A2|]. split; [exact Aeh|].
+    split; [intros _; split; [exact Apr|rewrite N; exact A4]|]. split; [intros E; congruence|]. split; [exact I|].
+    split; [exact T|]. split; [exact Ac|]. split; [exact Pe|]. split; [exact W|]. split; [exact B|]. split; [exact C|]. split; [exact Cr|].
+    split; [|split; [|exact A6]].
+    + intros k. rewrite O, sumf_app, (start_ops_no_act k more P). destruct A5 as [->| ->]; [lia|]. rewrite sumf_app. simpl. lia.
+    + intros Hd. rewrite O, forallb_app, (start_ops_plain more P). destruct A5 as [->| ->]; [rewrite Hd; reflexivity|].
+      rewrite forallb_app, Hd. reflexivity.
+  - destruct (complete_pre_paused s ops tid x r Hn Hst Hw Hx) as [r3 [A1 [A2 [Apr [Aeh A6]]]]].
+    exists r3, [], ops, (upd_task s tid r3). split; [exact A1|]. split; [exact A2|]. split; [exact Aeh|].
+    split; [intros E; congruence|]. split; [intros _; split; [exact Apr|reflexivity]|]. split; [constructor|].
+    cbn [upd_task tasks acts pend wf_state backlog calls wf_created]. rewrite app_nil_r.
+    repeat split; auto. rewrite complete_task_eq. destruct f as [|f]; [lia|]. rewrite A6. reflexivity.
+Qed.
+
+(* an action result is accepted: the task completes and its routes are dispatched *)
+Lemma result_D s aid res pre post : pend s = pre ++ IResult aid res :: post -> D sp pz s [] ->
+  D sp pz (match do_result sp (set_pend s (pre ++ post)) aid res with (s1, Ok) => s1 | (_, _) => set_pend s (pre ++ post) end) [].
+Proof.
+  intros Hp HD. pose proof HD as [H1 H2 H3 H4 H5 H6 H7a H7 H8 H9 H10 H11 H12 H13 H14 H15 H16 H17 H18].
   set (s0 := set_pend s (pre ++ post)).
   assert (Hin : In (IResult aid res) (pend s)) by (rewrite Hp; apply in_or_app; right; left; reflexivity).
   pose proof (D_result_valid s [] aid res HD Hin) as Hv.
@@ -835,8 +1036,10 @@ Proof.
   set (tid := a_task a) in *.
   destruct (nth_error (tasks s) tid) as [r|] eqn:Er; [|apply nth_error_None in Er; lia].
   assert (Eg : get_task s tid = r) by (unfold get_task; apply nth_error_nth'; exact Er). rewrite Eg in Hrun.
-  assert (Hw : wf_state s = RUNNING).
-  { destruct H2 as [Hw|Hc]; [exact Hw|]. specialize (H5 Hc tid r Er). rewrite Hrun in H5. discriminate. }
+  assert (Hw : wf_state s = RUNNING \/ wf_state s = PAUSED).
+  { destruct H2 as [Hw|[[_ Hw]|Hc]]; [left; exact Hw|right; exact Hw|]. specialize (H5 Hc tid r Er). rewrite Hrun in H5. discriminate. }
+  assert (Hpz : wf_state s = PAUSED -> pz = true).
+  { intros E. destruct H2 as [Hw'|[[Hz _]|Hc]]; [congruence|exact Hz|rewrite E in Hc; discriminate]. }
   set (x := state_of_outcome res).
   assert (Hx : x = SUCCESS \/ x = ERROR \/ x = CANCELLED) by (unfold x; destruct res; auto).
   assert (Hxc : is_completed x = true) by (destruct Hx as [->|[->| ->]]; reflexivity).
@@ -844,12 +1047,10 @@ Proof.
   unfold do_result. change (acts s0) with (acts s). assert (El : Nat.leb (length (acts s)) aid = false) by (apply Nat.leb_gt; exact Hv).
   rewrite El. unfold get_act. change (acts s0) with (acts s). rewrite (nth_error_nth' _ _ dummy_arow _ Ea). rewrite Einc. cbv zeta.
   fold tid. fold x. set (a' := mkArow tid x true). set (s1 := upd_act s0 aid a').
-  destruct (complete_simple (FUEL sp s1) s1 [] tid x r) as [r3 [cmds [ops' [A1 [A2 [Aeh [A3 [A4 [A5 A6]]]]]]]]];
+  destruct (complete_any (FUEL sp s1) s1 [] tid x r) as [r3 [rows [Ops [S [A1 [A2 [Aeh [Arun [Apau [I [T [Ac [Pe [W [B [C [Cr [Hnoact0 [Hdop A6]]]]]]]]]]]]]]]]]]];
     [unfold FUEL; lia|exact Er|exact Hrun|exact Hw|exact H4|exact Hx|].
   rewrite A6. rewrite nojoin_check_affected by (apply simple_nojoin; exact Hs).
-  destruct (spawn_spec sp cmds (upd_task s1 tid r3, ops') A3) as [rows [more [T [N [I [O [P [Ac [Pe [W [B [C Cr]]]]]]]]]]]].
-  destruct (spawn sp (upd_task s1 tid r3, ops') cmds) as [S Ops]. cbn [fst snd] in T, O, Ac, Pe, W, B, C, Cr.
-  cbn [s1 s0 upd_task upd_act set_pend tasks acts pend wf_state backlog calls wf_created] in T, Ac, Pe, W, B, C, Cr.
+  cbn [s1 s0 upd_task upd_act set_pend tasks acts pend wf_state backlog calls wf_created] in T, Ac, Pe, W, B, C, Cr, Arun, Apau.
   apply commit_D.
   (* facts about the new lists *)
   assert (Hlen : length (set_nth tid r3 (tasks s)) = length (tasks s)) by apply set_nth_length.
@@ -867,19 +1068,21 @@ Proof.
   { intros k Hk Hl. unfold get_task. rewrite T, app_nth1 by (rewrite Hlen; exact Hl). apply nth_set_nth_other. exact Hk. }
   assert (Hget3 : get_task S tid = r3).
   { unfold get_task. rewrite T, app_nth1 by (rewrite Hlen; exact Htid). apply nth_error_nth'. apply nth_error_set_nth_same. exact Htid. }
-  assert (Hnoact : forall k, sumf (op_act k) Ops = 0).
-  { intros k. rewrite O, sumf_app, (start_ops_no_act k more P). destruct A5 as [->| ->]; reflexivity. }
+  assert (Hnoact : forall k, sumf (op_act k) Ops = 0) by (intros k; rewrite Hnoact0; reflexivity).
   assert (Hpend : forall k, sumf (item_act k) (pre ++ post) + (if Nat.eqb aid k then 1 else 0) = sumf (item_act k) (pend s)).
   { intros k. rewrite Hp, !sumf_app. simpl. lia. }
-  assert (Hidle : forall y, In y rows -> t_state y = IDLE) by (rewrite Forall_forall in I; exact I).
+  assert (Hidle : forall y, In y rows -> t_state y = IDLE) by (rewrite Forall_forall in I; intros y Hy; apply (I y Hy)).
+  assert (Hunp : forall y, In y rows -> t_processed y = false) by (rewrite Forall_forall in I; intros y Hy; apply (I y Hy)).
   assert (Hrowname : forall y, In y rows -> t_name r < t_name y < length sp).
-  { intros y Hy. apply (routes_range sp Hs (t_name r) x). eapply Permutation_in; [exact A4|]. rewrite <- N. apply in_map. exact Hy. }
+  { intros y Hy. destruct Hw as [Hw|Hw]; [|destruct (Apau Hw) as [_ E]; subst rows; destruct Hy].
+    destruct (Arun Hw) as [_ A4]. apply (routes_range sp Hs (t_name r) x). eapply Permutation_in; [exact A4|]. apply in_map. exact Hy. }
+  assert (Hncomp : is_completed (wf_state s) = false) by (destruct Hw as [Hw|Hw]; rewrite Hw; reflexivity).
   constructor.
   - rewrite Cr. exact H1.
-  - left. rewrite W. exact Hw.
-  - rewrite W, Hw. reflexivity.
+  - rewrite W. destruct Hw as [Hw|Hw]; [left; exact Hw|right; left; split; [apply Hpz, Hw|exact Hw]].
+  - rewrite W. exact H3.
   - rewrite B. exact H4.
-  - rewrite W, Hw. discriminate.
+  - rewrite W, Hncomp. discriminate.
   - intros k y Hk. destruct (Hrowcase k y Hk) as [[-> ->]|[[Hne Hold]|[Hge Hy]]].
     + split; [rewrite A2; destruct Hx as [->|[->| ->]]; auto|rewrite A1; apply (H6 tid r Er)].
     + apply (H6 k y Hold).
@@ -910,10 +1113,16 @@ Proof.
     pose proof (sumf_set_nth (fun y => expanded sp y n) (tasks s) tid r r3 Er) as E2. cbv beta in E1, E2.
     rewrite A1 in E1.
     assert (Er0 : expanded sp r n = 0) by (unfold expanded; rewrite Hrun; reflexivity).
-    assert (Er3 : expanded sp r3 n = count_occ Nat.eq_dec (routes sp (t_name r) x) n) by (unfold expanded; rewrite A2, A1, Hxc; reflexivity).
     assert (Erows : sumf (fun y => expanded sp y n) rows = 0).
     { apply sumf_zero. intros y Hy. unfold expanded. rewrite (Hidle y Hy). reflexivity. }
-    rewrite (rows_named_count rows n), N, (count_occ_perm _ _ n A4). lia.
+    destruct Hw as [Hw|Hw].
+    + destruct (Arun Hw) as [Apr A4].
+      assert (Er3 : expanded sp r3 n = count_occ Nat.eq_dec (routes sp (t_name r) x) n) by (unfold expanded; rewrite A2, A1, Hxc, Apr; reflexivity).
+      rewrite (rows_named_count rows n), (count_occ_perm _ _ n A4). lia.
+    + destruct (Apau Hw) as [Apr E]. subst rows.
+      assert (Er3 : expanded sp r3 n = 0).
+      { unfold expanded. rewrite Apr, (H18 tid r Er ltac:(rewrite Hrun; reflexivity)), andb_false_r. reflexivity. }
+      simpl. lia.
   - intros p. specialize (H12 p). unfold nth_call in *. rewrite C.
     set (X := if Nat.eqb (t_name r) p then [x] else []).
     assert (Eold : pending_results s p = flat_map (res_of s p) pre ++ X ++ flat_map (res_of s p) post).
@@ -948,12 +1157,20 @@ Proof.
     rewrite !app_assoc. apply Permutation_app_tail. apply Permutation_app_comm.
   - rewrite Pe. rewrite Hp, !forallb_app in H13. simpl in H13. rewrite forallb_app.
     apply andb_true_iff in H13. destruct H13 as [Q1 Q2]. rewrite Q1, Q2. reflexivity.
-  - rewrite O, forallb_app, (start_ops_plain more P). destruct A5 as [->| ->]; reflexivity.
+  - apply Hdop. reflexivity.
   - intros k y Hk Hye. destruct (Hrowcase k y Hk) as [[-> ->]|[[Hne Hold]|[Hge Hy]]].
     + rewrite A1. apply Aeh. rewrite <- A2. exact Hye.
     + apply (H15 k y Hold Hye).
     + rewrite (Hidle y Hy) in Hye. discriminate.
-  - rewrite W, Hw. discriminate.
+  - rewrite W, Hncomp. discriminate.
+  - rewrite W. intros Hq k y Hk Hyc. destruct (Hrowcase k y Hk) as [[-> ->]|[[Hne Hold]|[Hge Hy]]].
+    + destruct Hw as [Hw|Hw]; [apply (Arun Hw)|contradiction].
+    + apply (H17 Hq k y Hold Hyc).
+    + rewrite (Hidle y Hy) in Hyc. discriminate.
+  - intros k y Hk Hyc. destruct (Hrowcase k y Hk) as [[-> ->]|[[Hne Hold]|[Hge Hy]]].
+    + rewrite A2, Hxc in Hyc. discriminate.
+    + apply (H18 k y Hold Hyc).
+    + apply Hunp, Hy.
 Qed.
 
 Lemma count_occ_filter (f : nat -> bool) l n :
@@ -985,12 +1202,12 @@ Proof.
   destruct (inbound sp n); reflexivity.
 Qed.
 
-Lemma D_add_check s : D sp s [] -> D sp s [OCheck].
+Lemma D_add_check s : D sp pz s [] -> D sp pz s [OCheck].
 Proof.
-  intros [H1 H2 H3 H4 H5 H6 H7a H7 H8 H9 H10 H11 H12 H13 H14 H15 H16]. constructor; assumption.
+  intros [H1 H2 H3 H4 H5 H6 H7a H7 H8 H9 H10 H11 H12 H13 H14 H15 H16 H17 H18]. constructor; assumption.
 Qed.
 
-Lemma start_D s : wf_created s = false -> pend s = [] -> D sp (fst (step sp s EStart)) [].
+Lemma start_D s : wf_created s = false -> pend s = [] -> D sp pz (fst (step sp s EStart)) [].
 Proof.
   intros Hc Hp. unfold step. rewrite Hc.
   set (s0 := mkSt true RUNNING [] [] [] [] (pend s) (uids s)).
@@ -1012,10 +1229,11 @@ Proof.
   rewrite Ed.
   destruct (spawn_spec sp (rearrange cmds) (s0, []) Hruns') as [rows [more [T [N [I [O [P [Ac [Pe [W [B [C Cr]]]]]]]]]]]].
   destruct (spawn sp (s0, []) (rearrange cmds)) as [S Ops]. cbn [fst snd s0 tasks acts pend wf_state backlog calls wf_created app] in T, O, Ac, Pe, W, B, C, Cr.
-  assert (Hidle : forall y, In y rows -> t_state y = IDLE) by (rewrite Forall_forall in I; exact I).
+  assert (Hidle : forall y, In y rows -> t_state y = IDLE) by (rewrite Forall_forall in I; intros y Hy; apply (I y Hy)).
+  assert (Hunp : forall y, In y rows -> t_processed y = false) by (rewrite Forall_forall in I; intros y Hy; apply (I y Hy)).
   assert (HnamesP : Permutation (map t_name rows) (start_tasks sp)).
   { rewrite N, <- Hnames. unfold names. apply Permutation_sym, Permutation_map. exact Hperm. }
-  assert (DS : D sp S Ops).
+  assert (DS : D sp pz S Ops).
   { constructor.
     - rewrite Cr. reflexivity.
     - left. rewrite W. reflexivity.
@@ -1038,31 +1256,305 @@ Proof.
     - rewrite Pe, Hp. reflexivity.
     - rewrite O. apply start_ops_plain. exact P.
     - intros k y Hk Hye. rewrite T in Hk. rewrite (Hidle y (nth_error_In _ _ Hk)) in Hye. discriminate.
-    - rewrite W. discriminate. }
-  destruct (cac_spec S (D_live _ _ _ DS)) as [s2 [E2 [Hh [Hl [Hr Hq]]]]]. cbn [fst snd]. rewrite E2. cbn [fst].
-  apply commit_D. apply (hdr_D sp S s2 Ops DS Hh Hl).
-  - eapply cac_not_paused; [exact E2|rewrite W; reflexivity].
+    - rewrite W. discriminate.
+    - intros _ k y Hk Hyc. rewrite T in Hk. rewrite (Hidle y (nth_error_In _ _ Hk)) in Hyc. discriminate.
+    - intros k y Hk _. rewrite T in Hk. apply Hunp. eapply nth_error_In; exact Hk. }
+  destruct (cac_spec S (D_live _ _ _ _ DS)) as [s2 [E2 [Hh [Hl [Hr Hq]]]]]. cbn [fst snd]. rewrite E2. cbn [fst].
+  apply commit_D. apply (hdr_D sp pz S s2 Ops DS Hh Hl).
+  - destruct (cac_not_paused S s2 E2 ltac:(rewrite W; reflexivity)) as [Q|Q]; [left; exact Q|right; right; exact Q].
   - intros Hc2. eapply cac_done; [exact E2|rewrite W; reflexivity|exact Hc2].
   - intros Hc2. eapply cac_verdict; [exact E2|rewrite W; reflexivity|exact Hc2].
+  - intros _. rewrite W. discriminate.
+Qed.
+
+(* --- operator pause / resume (pz = true) *)
+Lemma pause_D s s1 : pz = true -> D sp pz s [] -> pause_workflow s = Some s1 -> D sp pz s1 [].
+Proof.
+  intros Hz HD. unfold pause_workflow. destruct (is_paused (wf_state s)); [intros H; injection H as <-; exact HD|].
+  intros H. apply wf_set_state_inv in H. subst s1.
+  apply (hdr_D sp pz s (set_wf_state s PAUSED) [] HD).
+  - right. exists PAUSED. reflexivity.
+  - reflexivity.
+  - right. left. split; [exact Hz|reflexivity].
+  - intros E. discriminate E.
+  - intros E. discriminate E.
+  - intros E. exfalso. apply E. reflexivity.
+Qed.
+
+(* the commands resume computes for the task executions completed while the workflow was PAUSED *)
+Lemma more_runs : forall (unproc : list (nat * trow)) more,
+  (forall p, In p unproc -> t_state (snd p) = SUCCESS \/ t_state (snd p) = ERROR \/ t_state (snd p) = CANCELLED) ->
+  fold_right (fun p acc => match acc, find_next_tasks sp (snd p) with
+                           | Some l, Some m => Some (map (to_cmd sp (fst p)) m ++ l)
+                           | _, _ => None end) (Some []) unproc = Some more ->
+  is_runs more = true /\
+  names more = flat_map (fun p => routes sp (t_name (snd p)) (t_state (snd p))) unproc /\
+  length more <= length unproc * spec_size sp.
+Proof.
+  induction unproc as [|p l IH]; intros more Hst H; simpl in H.
+  - injection H as <-. repeat split. simpl. lia.
+  - destruct (fold_right _ _ l) as [l0|] eqn:E; [|discriminate].
+    destruct (find_next_simple sp Hs (snd p) (Hst p (or_introl eq_refl))) as [nx [Hfn [_ Hnx]]].
+    rewrite Hfn in H. injection H as <-.
+    destruct (IH l0 (fun q Hq => Hst q (or_intror Hq)) eq_refl) as [I1 [I2 I3]].
+    destruct (Hnx (fst p)) as [N1 [N2 _]].
+    split; [unfold is_runs in *; rewrite forallb_app, N1, I1; reflexivity|].
+    split; [unfold names in *; rewrite map_app, N2, I2; reflexivity|].
+    rewrite app_length, map_length. apply find_next_len in Hfn. simpl. lia.
+Qed.
+
+Definition gproc (r : trow) : trow :=
+  if is_completed (t_state r) && negb (t_processed r) then t_set_processed r true else r.
+
+Lemma gproc_facts r : t_state (gproc r) = t_state r /\ t_name (gproc r) = t_name r /\ t_err_handled (gproc r) = t_err_handled r /\
+  (is_completed (t_state r) = true -> t_processed (gproc r) = true) /\ (is_completed (t_state r) = false -> gproc r = r).
+Proof.
+  unfold gproc. destruct (is_completed (t_state r)) eqn:Ec; destruct (t_processed r) eqn:Ep; cbn; repeat split; auto; intros E; discriminate E.
+Qed.
+
+Lemma count_occ_flat_map {A} (h : A -> list nat) l n :
+  count_occ Nat.eq_dec (flat_map h l) n = sumf (fun p => count_occ Nat.eq_dec (h p) n) l.
+Proof. induction l as [|a l IH]; simpl; [reflexivity|]. rewrite count_occ_app, IH. reflexivity. Qed.
+
+Lemma sumf_filter_combine {A} (c : A -> bool) (F : A -> nat) : forall (l2 : list A) (l1 : list nat), length l1 = length l2 ->
+  sumf (fun p => F (snd p)) (filter (fun p => c (snd p)) (combine l1 l2)) = sumf (fun r => if c r then F r else 0) l2.
+Proof.
+  induction l2 as [|a l2 IH]; intros l1 Hl; destruct l1 as [|b l1]; simpl in *; try lia; try reflexivity.
+  destruct (c a); simpl; rewrite IH by lia; reflexivity.
+Qed.
+
+Lemma is_runs_runs2 l : is_runs l = true -> is_runs2 l = true.
+Proof.
+  unfold is_runs, is_runs2. intros H. rewrite forallb_forall in *. intros c Hc. specialize (H c Hc).
+  destruct c as [? ? w ?| | | |]; try discriminate H. exact H.
+Qed.
+
+Lemma start_ops2_no_act k more : forallb is_start_op2 more = true -> sumf (op_act k) more = 0.
+Proof.
+  intros H. apply sumf_zero. intros o Ho. rewrite forallb_forall in H. specialize (H o Ho). destruct o; try discriminate H. reflexivity.
+Qed.
+
+Lemma start_ops2_plain more : forallb is_start_op2 more = true -> forallb dop more = true.
+Proof.
+  intros H. rewrite forallb_forall in *. intros o Ho. specialize (H o Ho). destruct o as [t f r x| | |]; try discriminate H.
+  destruct f, r, x; try discriminate H; reflexivity.
+Qed.
+
+(* the state resume leaves behind: completed task executions processed, their routes dispatched *)
+Lemma resume_core s S0 Ops rows :
+  D sp pz s [] ->
+  tasks S0 = map gproc (tasks s) ++ rows -> acts S0 = acts s -> pend S0 = pend s -> wf_state S0 = RUNNING ->
+  backlog S0 = [] -> calls S0 = calls s -> wf_created S0 = true ->
+  Forall (fun y => t_state y = IDLE /\ t_processed y = false) rows ->
+  Permutation (map t_name rows)
+    (flat_map (fun p : nat * trow => routes sp (t_name (snd p)) (t_state (snd p)))
+       (filter (fun p => is_completed (t_state (snd p)) && negb (t_processed (snd p))) (combine (seq 0 (length (tasks s))) (tasks s)))) ->
+  forallb is_start_op2 Ops = true ->
+  D sp pz S0 Ops.
+Proof.
+  intros HD T Ac Pe W B C Cr I Pn Po. pose proof HD as [H1 H2 H3 H4 H5 H6 H7a H7 H8 H9 H10 H11 H12 H13 H14 H15 H16 H17 H18].
+  assert (Hidle : forall y, In y rows -> t_state y = IDLE) by (rewrite Forall_forall in I; intros y Hy; apply (I y Hy)).
+  assert (Hunp : forall y, In y rows -> t_processed y = false) by (rewrite Forall_forall in I; intros y Hy; apply (I y Hy)).
+  assert (Hlen : length (map gproc (tasks s)) = length (tasks s)) by apply map_length.
+  assert (Hrowcase : forall k y, nth_error (tasks S0) k = Some y ->
+            (exists r, nth_error (tasks s) k = Some r /\ y = gproc r) \/ (length (tasks s) <= k /\ In y rows)).
+  { intros k y Hk. rewrite T in Hk. destruct (Nat.lt_ge_cases k (length (tasks s))) as [Hl|Hl].
+    - left. rewrite nth_error_app1 in Hk by (rewrite Hlen; exact Hl). rewrite nth_error_map in Hk.
+      destruct (nth_error (tasks s) k) as [r|]; [|discriminate]. injection Hk as <-. exists r. split; reflexivity.
+    - right. split; [exact Hl|]. rewrite nth_error_app2 in Hk by (rewrite Hlen; exact Hl). eapply nth_error_In; exact Hk. }
+  assert (Hget : forall k, k < length (tasks s) -> get_task S0 k = gproc (get_task s k)).
+  { intros k Hl. unfold get_task. rewrite T, app_nth1 by (rewrite Hlen; exact Hl).
+    rewrite (nth_indep _ dummy_trow (gproc dummy_trow)) by (rewrite Hlen; exact Hl). apply map_nth. }
+  assert (Hrowname : forall y, In y rows -> t_name y < length sp).
+  { intros y Hy. assert (Hin : In (t_name y) (map t_name rows)) by (apply in_map; exact Hy).
+    eapply Permutation_in in Hin; [|exact Pn]. apply in_flat_map in Hin. destruct Hin as [p [_ Hr]].
+    apply (routes_range sp Hs _ _ _ Hr). }
+  constructor.
+  - exact Cr.
+  - left. exact W.
+  - rewrite W. reflexivity.
+  - exact B.
+  - rewrite W. discriminate.
+  - intros k y Hk. destruct (Hrowcase k y Hk) as [[r [Hr ->]]|[Hge Hy]].
+    + destruct (gproc_facts r) as [G1 [G2 _]]. rewrite G1, G2. apply (H6 k r Hr).
+    + split; [left; apply Hidle, Hy|apply Hrowname, Hy].
+  - intros k y Hk Hyi k' b Hk'. rewrite Ac in Hk'. destruct (Hrowcase k y Hk) as [[r [Hr ->]]|[Hge Hy]].
+    + destruct (gproc_facts r) as [G1 _]. rewrite G1 in Hyi. apply (H7a k r Hr Hyi k' b Hk').
+    + destruct (H8 k' b Hk') as [Hlt _]. lia.
+  - intros k1 k2 a1 a2 Hk1 Hk2. rewrite Ac in Hk1, Hk2. apply (H7 k1 k2 a1 a2 Hk1 Hk2).
+  - intros k b Hk. rewrite Ac in Hk. destruct (H8 k b Hk) as [Q1 [Q2 Q3]].
+    rewrite T, app_length, Hlen. split; [lia|]. rewrite (Hget _ Q1). destruct (gproc_facts (get_task s (a_task b))) as [G1 _]. rewrite G1.
+    split; assumption.
+  - intros k b Hk. rewrite Ac in Hk. unfold n_act. rewrite Pe, (start_ops2_no_act k Ops Po). pose proof (H9 k b Hk) as Ho. unfold n_act in Ho. simpl in Ho. lia.
+  - intros k Hk. rewrite Ac in Hk. unfold n_act. rewrite Pe, (start_ops2_no_act k Ops Po). pose proof (H10 k Hk) as Ho. unfold n_act in Ho. simpl in Ho. lia.
+  - intros n Hn. specialize (H11 n Hn). unfold rows_named in *. rewrite T, !sumf_app, !sumf_map.
+    assert (E1 : sumf (fun x => if Nat.eqb (t_name (gproc x)) n then 1 else 0) (tasks s) = sumf (fun r => if Nat.eqb (t_name r) n then 1 else 0) (tasks s)).
+    { apply sumf_ext. intros r _. destruct (gproc_facts r) as [_ [G2 _]]. rewrite G2. reflexivity. }
+    assert (E2 : sumf (fun x => expanded sp (gproc x) n) (tasks s) =
+                 sumf (fun r => expanded sp r n) (tasks s) +
+                 sumf (fun r => if is_completed (t_state r) && negb (t_processed r) then count_occ Nat.eq_dec (routes sp (t_name r) (t_state r)) n else 0) (tasks s)).
+    { rewrite <- sumf_add. apply sumf_ext. intros r _. unfold expanded. destruct (gproc_facts r) as [G1 [G2 [_ [G4 G5]]]].
+      rewrite G1, G2. destruct (is_completed (t_state r)) eqn:Ec.
+      - rewrite (G4 eq_refl). destruct (t_processed r); simpl; lia.
+      - rewrite (G5 eq_refl). simpl. reflexivity. }
+    assert (E3 : sumf (fun y => expanded sp y n) rows = 0).
+    { apply sumf_zero. intros y Hy. unfold expanded. rewrite (Hidle y Hy). reflexivity. }
+    rewrite E1, E2, E3, (rows_named_count rows n), (count_occ_perm _ _ n Pn), count_occ_flat_map.
+    rewrite (sumf_filter_combine (fun r => is_completed (t_state r) && negb (t_processed r))
+               (fun r => count_occ Nat.eq_dec (routes sp (t_name r) (t_state r)) n) (tasks s) (seq 0 (length (tasks s))) (seq_length _ _)).
+    lia.
+  - intros p. specialize (H12 p). unfold nth_call in *. rewrite C.
+    assert (Ef : final_states S0 p = final_states s p).
+    { unfold final_states. rewrite T, flat_map_app.
+      rewrite (flat_map_nil_all _ rows) by (intros y Hy; rewrite (Hidle y Hy); cbn; rewrite andb_false_r; reflexivity).
+      rewrite app_nil_r. rewrite flat_map_concat_map, map_map, <- flat_map_concat_map. apply flat_map_ext. intros r.
+      destruct (gproc_facts r) as [G1 [G2 _]]. rewrite G1, G2. reflexivity. }
+    assert (Ep : pending_results S0 p = pending_results s p).
+    { unfold pending_results. rewrite Pe. apply flat_map_ext_in. intros i Hi. destruct i; try reflexivity.
+      pose proof (D_result_valid s [] aid r HD Hi) as Hv.
+      destruct (nth_error (acts s) aid) as [b|] eqn:Eb; [|apply nth_error_None in Eb; lia].
+      assert (Hname : name_of_act S0 aid = name_of_act s aid).
+      { unfold name_of_act, get_act. rewrite Ac. rewrite (nth_error_nth' _ _ dummy_arow _ Eb). destruct (H8 aid b Eb) as [Q1 _].
+        rewrite (Hget _ Q1). destruct (gproc_facts (get_task s (a_task b))) as [_ [G2 _]]. exact G2. }
+      unfold res_of. rewrite Hname. reflexivity. }
+    rewrite Ef, Ep. exact H12.
+  - rewrite Pe. exact H13.
+  - apply start_ops2_plain, Po.
+  - intros k y Hk Hye. destruct (Hrowcase k y Hk) as [[r [Hr ->]]|[Hge Hy]].
+    + destruct (gproc_facts r) as [G1 [G2 [G3 _]]]. rewrite G1 in Hye. rewrite G3, G2. apply (H15 k r Hr Hye).
+    + rewrite (Hidle y Hy) in Hye. discriminate.
+  - rewrite W. discriminate.
+  - intros _ k y Hk Hyc. destruct (Hrowcase k y Hk) as [[r [Hr ->]]|[Hge Hy]].
+    + destruct (gproc_facts r) as [G1 [_ [_ [G4 _]]]]. rewrite G1 in Hyc. apply G4, Hyc.
+    + rewrite (Hidle y Hy) in Hyc. discriminate.
+  - intros k y Hk Hyc. destruct (Hrowcase k y Hk) as [[r [Hr ->]]|[Hge Hy]].
+    + destruct (gproc_facts r) as [G1 [_ [_ [_ G5]]]]. rewrite G1 in Hyc. rewrite (G5 Hyc). apply (H18 k r Hr Hyc).
+    + apply Hunp, Hy.
+Qed.
+
+Lemma filter_id {A} (f : A -> bool) l : forallb f l = true -> filter f l = l.
+Proof. induction l as [|a l IH]; simpl; [reflexivity|]. intros H. apply andb_true_iff in H. destruct H as [-> H]. rewrite (IH H). reflexivity. Qed.
+
+Lemma names2_app l l' : names2 (l ++ l') = names2 l ++ names2 l'.
+Proof. unfold names2. apply flat_map_app. Qed.
+
+Lemma cwc_nonempty t cmds :
+  filter (fun c => match c with CSetState PAUSED => false | CNoop => false | _ => true end) cmds = cmds -> cmds <> [] ->
+  continue_workflow_cmds sp t cmds = dispatch sp (FUEL sp (mark_processed (fst t))) (mark_processed (fst t), snd t) cmds.
+Proof. intros Hf Hne. unfold continue_workflow_cmds. rewrite Hf. destruct cmds; [exfalso; auto|reflexivity]. Qed.
+
+Lemma cwc_empty t : backlog (fst t) = [] ->
+  continue_workflow_cmds sp t [] = match check_and_complete (mark_processed (fst t)) with
+                                   | Some s1 => ((s1, snd t), FOk) | None => ((mark_processed (fst t), snd t), FForce) end.
+Proof. intros Hb. unfold continue_workflow_cmds. cbn [filter]. change (backlog (mark_processed (fst t))) with (backlog (fst t)). rewrite Hb. reflexivity. Qed.
+
+Lemma resume_D s : D sp pz s [] -> D sp pz (fst (step sp s EResume)) [].
+Proof.
+  intros HD. unfold step. rewrite (D_created _ _ _ _ HD). cbn [negb].
+  destruct (D_wf _ _ _ _ HD) as [Hw|[[Hz Hw]|Hw]].
+  - rewrite Hw. exact HD.
+  - rewrite Hw. change (negb (is_paused_or_idle PAUSED)) with false. cbv iota.
+    assert (Es1 : wf_set_state s RUNNING = Some (set_wf_state s RUNNING)) by (unfold wf_set_state; rewrite Hw; reflexivity).
+    rewrite Es1. set (s1 := set_wf_state s RUNNING). cbv zeta.
+    set (idle := flat_map (fun p : nat * trow => if is_idle (t_state (snd p)) then [CRunExisting (fst p) true false] else [])
+                          (combine (seq 0 (length (tasks s1))) (tasks s1))).
+    set (unproc := filter (fun p : nat * trow => is_completed (t_state (snd p)) && negb (t_processed (snd p)))
+                          (combine (seq 0 (length (tasks s1))) (tasks s1))).
+    destruct (fold_right _ (Some []) unproc) as [more|] eqn:Emore; [|exact HD].
+    assert (Hst : forall p, In p unproc -> t_state (snd p) = SUCCESS \/ t_state (snd p) = ERROR \/ t_state (snd p) = CANCELLED).
+    { intros [k r] Hp. apply filter_In in Hp. destruct Hp as [Hp Hc]. cbn [snd] in *. apply andb_true_iff in Hc. destruct Hc as [Hc _].
+      apply in_combine_r in Hp. apply In_nth_error in Hp. destruct Hp as [j Hj]. destruct (D_states _ _ _ _ HD j r Hj) as [[Q|[Q|Q]] _].
+      - rewrite Q in Hc. discriminate. - rewrite Q in Hc. discriminate. - exact Q. }
+    destruct (more_runs unproc more Hst Emore) as [M1 [M2 M3]].
+    set (n := length (tasks s)) in *.
+    assert (Hcomb : length (combine (seq 0 (length (tasks s1))) (tasks s1)) = n).
+    { rewrite combine_length, seq_length. cbn. apply Nat.min_id. }
+    assert (Hidle2 : is_runs2 idle = true).
+    { unfold is_runs2. rewrite forallb_forall. intros c Hc. apply in_flat_map in Hc. destruct Hc as [p [_ Hc]].
+      destruct (is_idle _); [destruct Hc as [<-|[]]; reflexivity|destruct Hc]. }
+    assert (Hidle_names : names2 idle = []).
+    { unfold names2, idle. generalize (combine (seq 0 (length (tasks s1))) (tasks s1)). induction l as [|p l IH]; [reflexivity|].
+      cbn [flat_map]. rewrite flat_map_app, IH, app_nil_r. destruct (is_idle _); reflexivity. }
+    assert (Hidle_len : length idle <= n).
+    { rewrite <- Hcomb. apply flat_map_le1. intros p. destruct (is_idle _); simpl; lia. }
+    assert (Hun_len : length unproc <= n) by (rewrite <- Hcomb; apply filter_length_le).
+    set (cm := idle ++ more).
+    assert (Hcm2 : is_runs2 cm = true).
+    { unfold is_runs2, cm in *. rewrite forallb_app. rewrite Hidle2. apply is_runs_runs2 in M1. unfold is_runs2 in M1. rewrite M1. reflexivity. }
+    assert (Hcm_names : names2 cm = flat_map (fun p : nat * trow => routes sp (t_name (snd p)) (t_state (snd p))) unproc).
+    { unfold cm. rewrite names2_app, Hidle_names, (names2_runs more M1), M2. reflexivity. }
+    assert (Hcm_len : length cm <= n + n * spec_size sp).
+    { unfold cm. rewrite app_length. assert (length unproc * spec_size sp <= n * spec_size sp) by (apply Nat.mul_le_mono_r; exact Hun_len). lia. }
+    unfold continue_workflow.
+    assert (Hfil : filter (fun c => match c with CSetState PAUSED => false | CNoop => false | _ => true end) cm = cm).
+    { apply filter_id. unfold is_runs2 in Hcm2. rewrite forallb_forall in *. intros c Hc. specialize (Hcm2 c Hc).
+      destruct c; try discriminate Hcm2; reflexivity. }
+    set (s' := mark_processed s1).
+    assert (Hts' : tasks s' = map gproc (tasks s)) by reflexivity.
+    assert (Hbl' : backlog s' = []) by (cbn; apply (D_bl _ _ _ _ HD)).
+    assert (Hunproc_eq : unproc = filter (fun p : nat * trow => is_completed (t_state (snd p)) && negb (t_processed (snd p)))
+                                    (combine (seq 0 (length (tasks s))) (tasks s))) by reflexivity.
+    assert (Hcase : cm = [] \/ cm <> []) by (destruct cm; [left; reflexivity|right; discriminate]).
+    fold cm. destruct Hcase as [Ecm|Ecm].
+    + rewrite Ecm in *. rewrite cwc_empty by (cbn; apply (D_bl _ _ _ _ HD)). cbn [fst snd]. fold s'.
+      assert (DS : D sp pz s' []).
+      { apply (resume_core s s' [] []); try reflexivity; try exact HD.
+        - rewrite Hts', app_nil_r. reflexivity.
+        - exact Hbl'.
+        - apply (D_created _ _ _ _ HD).
+        - constructor.
+        - rewrite <- Hunproc_eq, <- Hcm_names. apply Permutation_refl. }
+      destruct (cac_spec s' (D_live _ _ _ _ DS)) as [s2 [E2 [Hh [Hl [Hr Hq]]]]]. rewrite E2. cbn [fst snd].
+      assert (D2 : D sp pz s2 []).
+      { apply (hdr_D sp pz s' s2 [] DS Hh Hl).
+        - destruct (cac_not_paused s' s2 E2 eq_refl) as [Q|Q]; [left; exact Q|right; right; exact Q].
+        - intros Hc2. eapply cac_done; [exact E2|reflexivity|exact Hc2].
+        - intros Hc2. eapply cac_verdict; [exact E2|reflexivity|exact Hc2].
+        - intros _. discriminate. }
+      rewrite (no_waiting_refresh s2).
+      * apply commit_D. exact D2.
+      * intros tid r Hr2. destruct (D_states _ _ _ _ D2 tid r Hr2) as [[Q|[Q|[Q|[Q|Q]]]] _]; rewrite Q; auto.
+    + rewrite (cwc_nonempty (s1, []) cm Hfil Ecm). cbn [fst snd]. fold s'.
+      destruct (rearrange_runs2 cm Hcm2) as [Hperm Hruns'].
+      pose proof (rearrange_length cm) as Hrl.
+      assert (Ed : dispatch sp (FUEL sp s') (s', []) cm = (spawn2 sp (s', []) (rearrange cm), FOk)).
+      { rewrite dispatch_eq. assert (Hf : exists f, FUEL sp s' = S (S f) /\ length cm < f).
+        { unfold FUEL. rewrite Hbl', Hts', map_length. fold n. cbn [length].
+          exists (4 * (length sp + spec_size sp + n + 0) + 14 + n * spec_size sp). split; lia. }
+        destruct Hf as [f [-> Hf]]. cbv zeta. cbn [fst]. rewrite Hbl'.
+        rewrite process_cmds_loop by (try (apply is_runs2_okcs; exact Hruns'); lia).
+        apply loop_spawn2; [exact Hruns'|reflexivity]. }
+      rewrite Ed.
+      destruct (spawn2_spec sp (rearrange cm) (s', []) Hruns') as [rows [Ops [T [N [I [O [P [Ac [Pe [W [B [C Cr]]]]]]]]]]]].
+      destruct (spawn2 sp (s', []) (rearrange cm)) as [S0 Ops0]. cbn [fst snd app] in T, O, Ac, Pe, W, B, C, Cr. subst Ops0.
+      assert (DS : D sp pz S0 Ops).
+      { apply (resume_core s S0 Ops rows HD); try assumption.
+        - rewrite B. exact Hbl'.
+        - rewrite Cr. apply (D_created _ _ _ _ HD).
+        - rewrite N, <- Hunproc_eq, <- Hcm_names. apply Permutation_sym, names2_perm. exact Hperm. }
+      cbn [fst snd]. rewrite (no_waiting_refresh S0).
+      * apply commit_D. exact DS.
+      * intros tid r Hr2. destruct (D_states _ _ _ _ DS tid r Hr2) as [[Q|[Q|[Q|[Q|Q]]]] _]; rewrite Q; auto.
+  - destruct (wf_state s); try discriminate Hw; exact HD.
 Qed.
 
 Definition plain4 (e : ev) : bool := match e with EStart | EFire _ | EFirePtq _ | EEvict => true | _ => false end.
 
-Theorem DInv_step s e : plain4 e = true -> DInv sp s -> DInv sp (fst (step sp s e)).
+Theorem DInv_step s e : plain4 e = true -> DInv sp pz s -> DInv sp pz (fst (step sp s e)).
 Proof.
   intros He Hinv. destruct e; try discriminate He.
   - (* EStart *)
     destruct Hinv as [[Hc [Hp _]]|HD]; [right; apply start_D; assumption|].
-    unfold step. rewrite (D_created _ _ _ HD). right. exact HD.
+    unfold step. rewrite (D_created _ _ _ _ HD). right. exact HD.
   - (* EFire *)
     unfold step. destruct (remove_first (item_eqb i) (pend s)) as [[it rest]|] eqn:Er; [|exact Hinv].
     destruct Hinv as [[Hc [Hp _]]|HD]; [rewrite Hp in Er; discriminate|]. right.
     destruct (remove_first_split _ _ _ _ Er) as [pre [post [Hp ->]]].
-    pose proof (D_items _ _ _ HD) as Hit. rewrite Hp, forallb_app in Hit. apply andb_true_iff in Hit. destruct Hit as [_ Hit].
+    pose proof (D_items _ _ _ _ HD) as Hit. rewrite Hp, forallb_app in Hit. apply andb_true_iff in Hit. destruct Hit as [_ Hit].
     simpl in Hit. apply andb_true_iff in Hit. destruct Hit as [Hit _].
     destruct it as [tid f r x|aid|aid res|ops|tid]; simpl in Hit.
     + (* start_task *)
-      assert (D0 : D sp (set_pend s (pre ++ post)) []) by (eapply drop_item_D; [exact Hp|reflexivity|reflexivity|exact HD]).
+      assert (D0 : D sp pz (set_pend s (pre ++ post)) []) by (eapply drop_item_D; [exact Hp|reflexivity|reflexivity|exact HD]).
       unfold do_start_task. cbn [set_pend tasks].
       destruct (Nat.leb (length (tasks s)) tid) eqn:El; [exact D0|]. apply Nat.leb_gt in El.
       destruct (nth_error (tasks s) tid) as [r0|] eqn:En; [|apply nth_error_None in En; lia].
@@ -1073,7 +1565,7 @@ Proof.
       * destruct (is_idle (t_state r0)) eqn:Ei; cbn [fst]; [apply (start_new_D _ tid r0 D0 En (Hidle_eq eq_refl))|].
         rewrite nojoin_check_affected by (apply simple_nojoin; exact Hs). exact D0.
       * destruct (is_idle (t_state r0)) eqn:Ei; cbn [negb fst]; [apply (start_new_D _ tid r0 D0 En (Hidle_eq eq_refl))|].
-        change (D sp (commit (set_pend s (pre ++ post), [OCheck])) []). apply commit_D, D_add_check, D0.
+        change (D sp pz (commit (set_pend s (pre ++ post), [OCheck])) []). apply commit_D, D_add_check, D0.
     + cbn [fst]. apply (exec_D s aid pre post Hp HD).
     + pose proof (result_D s aid res pre post Hp HD) as H.
       destruct (do_result sp (set_pend s (pre ++ post)) aid res) as [s1 o]. destruct o; exact H.
@@ -1086,6 +1578,21 @@ Proof.
     cbn [fst]. apply run_ops_D. apply take_ptq_D; assumption.
   - exact Hinv.
 Qed.
+
+Definition plain6 (e : ev) : bool :=
+  match e with EStart | EFire _ | EFirePtq _ | EEvict | EPause | EResume => true | _ => false end.
+
+Theorem DInv_step6 s e : pz = true -> plain6 e = true -> DInv sp pz s -> DInv sp pz (fst (step sp s e)).
+Proof.
+  intros Hz He Hinv. destruct e; try discriminate He; try (apply DInv_step; [reflexivity|exact Hinv]).
+  - (* EPause *)
+    unfold step. destruct Hinv as [[Hc H]|HD]; [rewrite Hc; left; split; [exact Hc|exact H]|].
+    rewrite (D_created _ _ _ _ HD). cbn [negb]. destruct (pause_workflow s) as [s1|] eqn:E; right; [|exact HD].
+    apply (pause_D s s1 Hz HD E).
+  - (* EResume *)
+    destruct Hinv as [[Hc H]|HD]; [unfold step; rewrite Hc; left; split; [exact Hc|exact H]|].
+    right. apply resume_D. exact HD.
+Qed.
 End Events.
 
 (* ================================================================= the theorem *)
@@ -1093,16 +1600,38 @@ Section Final.
 Variable sp : spec.
 Hypothesis Hs : simple_b sp = true.
 
-Lemma DInv_steps evs : forall s, forallb plain4 evs = true -> DInv sp s -> DInv sp (steps sp s evs).
+Lemma DInv_steps evs : forall s, forallb plain4 evs = true -> DInv sp false s -> DInv sp false (steps sp s evs).
 Proof.
   induction evs as [|e evs IH]; intros s He Hi; [exact Hi|].
   simpl in He. apply andb_true_iff in He. destruct He as [He1 He2].
   unfold steps. simpl. apply IH; [exact He2|apply DInv_step; assumption].
 Qed.
 
-Lemma plain4_live evs : forallb plain4 evs = true -> forallb live_ev evs = true.
+Lemma DInv_steps6 evs : forall s, forallb plain6 evs = true -> DInv sp true s -> DInv sp true (steps sp s evs).
+Proof.
+  induction evs as [|e evs IH]; intros s He Hi; [exact Hi|].
+  simpl in He. apply andb_true_iff in He. destruct He as [He1 He2].
+  unfold steps. simpl. apply IH; [exact He2|apply DInv_step6; [exact Hs|reflexivity|exact He1|exact Hi]].
+Qed.
+
+Lemma plain6_live evs : forallb plain6 evs = true -> forallb live_ev evs = true.
 Proof.
   intros H. rewrite forallb_forall in *. intros e He. specialize (H e He). destruct e; try discriminate H; reflexivity.
+Qed.
+
+Lemma plain4_6 evs : forallb plain4 evs = true -> forallb plain6 evs = true.
+Proof.
+  intros H. rewrite forallb_forall in *. intros e He. specialize (H e He). destruct e; try discriminate H; reflexivity.
+Qed.
+
+(* without operator commands the workflow is never PAUSED *)
+Lemma plain4_not_paused u evs : forallb plain4 evs = true -> wf_created (run sp u evs) = true -> wf_state (run sp u evs) <> PAUSED.
+Proof.
+  intros He Hc.
+  assert (HI : DInv sp false (run sp u evs)).
+  { rewrite run_steps. apply DInv_steps; [exact He|]. left. repeat split; reflexivity. }
+  destruct HI as [[Hc' _]|HD]; [congruence|].
+  destruct (D_wf _ _ _ _ HD) as [E|[[E _]|E]]; [rewrite E; discriminate|discriminate E|intros E'; rewrite E' in E; discriminate].
 Qed.
 
 (* final states of the task executions of task p *)
@@ -1110,9 +1639,6 @@ Definition states_named (s : st) (p : nat) : list state :=
   map t_state (filter (fun r => Nat.eqb (t_name r) p) (tasks s)).
 
 Definition G (p : nat) (x : state) (n : nat) : nat := count_occ Nat.eq_dec (routes sp p x) n.
-
-Lemma sumf_add {A} (f g : A -> nat) l : sumf (fun x => f x + g x) l = sumf f l + sumf g l.
-Proof. induction l as [|a l IH]; simpl; [reflexivity|]. rewrite IH. lia. Qed.
 
 Lemma sumf_pick (c h : nat -> nat) m len : m < len ->
   sumf (fun p => (if Nat.eqb p m then c p else 0) + h p) (seq 0 len) = c m + sumf h (seq 0 len).
@@ -1143,19 +1669,19 @@ Proof.
   intros H. unfold contrib. apply sumf_ext. intros p Hp. apply in_seq in Hp. rewrite (H p ltac:(lia)). reflexivity.
 Qed.
 
-Theorem den_correct u evs :
-  forallb plain4 evs = true ->
+Theorem den_correct6 u evs :
+  forallb plain6 evs = true ->
   let s := run sp u evs in
-  wf_created s = true -> pend s = [] ->
+  wf_created s = true -> pend s = [] -> wf_state s <> PAUSED ->
   forall n, n < length sp ->
     rows_named s n = nth n (den sp) 0 /\
     Permutation (states_named s n) (prescribed_states sp n (nth n (den sp) 0)).
 Proof.
-  intros He s Hc Hp.
-  assert (HI : DInv sp s).
-  { unfold s. rewrite run_steps. apply DInv_steps; [exact He|]. left. repeat split; reflexivity. }
+  intros He s Hc Hp Hnpz.
+  assert (HI : DInv sp true s).
+  { unfold s. rewrite run_steps. apply DInv_steps6; [exact He|]. left. repeat split; reflexivity. }
   destruct HI as [[Hc' _]|HD]; [congruence|].
-  destruct (no_stuck_joinfree sp (simple_nojoin sp Hs) u evs (plain4_live evs He) Hc Hp) as [Hdone _]. fold s in Hdone.
+  destruct (no_stuck_joinfree sp (simple_nojoin sp Hs) u evs (plain6_live evs He) Hc Hp) as [Hdone _]. fold s in Hdone.
   (* every row completed: final_states = states_named *)
   assert (Hfin : forall p, final_states s p = states_named s p).
   { intros p. unfold final_states, states_named.
@@ -1171,18 +1697,19 @@ Proof.
     { induction l as [|r l IH]; [reflexivity|]. simpl. destruct (Nat.eqb (t_name r) p); simpl; rewrite IH; reflexivity. }
     apply Hg. }
   assert (Hout : forall p, Permutation (states_named s p) (prescribed_states sp p (rows_named s p))).
-  { intros p. pose proof (D_out _ _ _ HD p) as H. unfold pending_results in H. rewrite Hp in H. cbn [flat_map app] in H.
+  { intros p. pose proof (D_out _ _ _ _ HD p) as H. unfold pending_results in H. rewrite Hp in H. cbn [flat_map app] in H.
     rewrite Hfin in H. assert (El : nth_call s p = rows_named s p).
     { rewrite Hlen. apply Permutation_length in H. unfold prescribed_states in H. rewrite map_length, seq_length in H. lia. }
     rewrite El in H. exact H. }
   (* the creation law, regrouped by task name *)
   assert (Hnames : forall r, In r (tasks s) -> t_name r < length sp).
-  { intros r Hr. apply In_nth_error in Hr. destruct Hr as [k Hk]. apply (D_states _ _ _ HD k r Hk). }
+  { intros r Hr. apply In_nth_error in Hr. destruct Hr as [k Hk]. apply (D_states _ _ _ _ HD k r Hk). }
   assert (Hlaw : forall n, n < length sp ->
             rows_named s n = base sp n + contrib sp (map (rows_named s) (seq 0 (length sp))) n).
-  { intros n Hn. rewrite (D_create _ _ _ HD n Hn). f_equal.
+  { intros n Hn. rewrite (D_create _ _ _ _ HD n Hn). f_equal.
     assert (E1 : sumf (fun r => expanded sp r n) (tasks s) = sumf (fun r => G (t_name r) (t_state r) n) (tasks s)).
-    { apply sumf_ext. intros r Hr. unfold expanded, G. apply In_nth_error in Hr. destruct Hr as [k Hk]. rewrite (Hdone k r Hk). reflexivity. }
+    { apply sumf_ext. intros r Hr. unfold expanded, G. apply In_nth_error in Hr. destruct Hr as [k Hk]. rewrite (Hdone k r Hk).
+      rewrite (D_proc _ _ _ _ HD Hnpz k r Hk (Hdone k r Hk)). reflexivity. }
     rewrite E1, (regroup (tasks s) n Hnames). unfold contrib.
     replace (length sp) with (n + (length sp - n)) at 1 by lia. rewrite seq_app, sumf_app. cbn [Nat.add].
     assert (Ez : sumf (fun p => sumf (fun x => G p x n) (map t_state (filter (fun r => Nat.eqb (t_name r) p) (tasks s))))
@@ -1209,6 +1736,17 @@ Proof.
   split; [reflexivity|apply Hout].
 Qed.
 
+Theorem den_correct u evs :
+  forallb plain4 evs = true ->
+  let s := run sp u evs in
+  wf_created s = true -> pend s = [] ->
+  forall n, n < length sp ->
+    rows_named s n = nth n (den sp) 0 /\
+    Permutation (states_named s n) (prescribed_states sp n (nth n (den sp) 0)).
+Proof.
+  intros He s Hc Hp. apply (den_correct6 u evs (plain4_6 evs He) Hc Hp). apply plain4_not_paused; assumption.
+Qed.
+
 (* the final workflow state prescribed by the definition *)
 Definition den_states (p : nat) : list state := prescribed_states sp p (nth p (den sp) 0).
 Definition den_verdict : state :=
@@ -1228,23 +1766,23 @@ Proof.
     exists r. split; assumption.
 Qed.
 
-Theorem den_final_state u evs :
-  forallb plain4 evs = true ->
+Theorem den_final_state6 u evs :
+  forallb plain6 evs = true ->
   let s := run sp u evs in
-  wf_created s = true -> pend s = [] -> wf_state s = den_verdict.
+  wf_created s = true -> pend s = [] -> wf_state s <> PAUSED -> wf_state s = den_verdict.
 Proof.
-  intros He s Hc Hp.
-  assert (HI : DInv sp s).
-  { unfold s. rewrite run_steps. apply DInv_steps; [exact He|]. left. repeat split; reflexivity. }
+  intros He s Hc Hp Hnpz.
+  assert (HI : DInv sp true s).
+  { unfold s. rewrite run_steps. apply DInv_steps6; [exact He|]. left. repeat split; reflexivity. }
   destruct HI as [[Hc' _]|HD]; [congruence|].
-  destruct (no_stuck_joinfree sp (simple_nojoin sp Hs) u evs (plain4_live evs He) Hc Hp) as [Hdone Hfin]. fold s in Hdone, Hfin.
+  destruct (no_stuck_joinfree sp (simple_nojoin sp Hs) u evs (plain6_live evs He) Hc Hp) as [Hdone Hfin]. fold s in Hdone, Hfin.
   assert (Hcomp : is_completed (wf_state s) = true).
-  { destruct Hfin as [H|H]; [exact H|]. destruct (D_wf _ _ _ HD) as [H'|H']; [congruence|exact H']. }
-  rewrite (D_verdict _ _ _ HD Hcomp).
+  { destruct Hfin as [H|H]; [exact H|]. contradiction. }
+  rewrite (D_verdict _ _ _ _ HD Hcomp).
   assert (Hnames : forall r, In r (tasks s) -> t_name r < length sp).
-  { intros r Hr. apply In_nth_error in Hr. destruct Hr as [k Hk]. apply (D_states _ _ _ HD k r Hk). }
+  { intros r Hr. apply In_nth_error in Hr. destruct Hr as [k Hk]. apply (D_states _ _ _ _ HD k r Hk). }
   assert (Hst : forall p, p < length sp -> Permutation (states_named s p) (den_states p)).
-  { intros p Hpl. unfold den_states. apply (den_correct u evs He Hc Hp p Hpl). }
+  { intros p Hpl. unfold den_states. apply (den_correct6 u evs He Hc Hp Hnpz p Hpl). }
   unfold verdict_of, den_verdict.
   assert (E1 : existsb (fun r => state_eqb (t_state r) CANCELLED) (tasks s) =
                existsb (fun p => existsb (fun x => state_eqb x CANCELLED) (den_states p)) (seq 0 (length sp))).
@@ -1261,7 +1799,7 @@ Proof.
         apply andb_true_iff in Hx; destruct Hx as [Hx1 Hx2]; cbv beta; rewrite Hx1; simpl;
         apply In_nth_error in Hr; destruct Hr as [k Hk];
         assert (Hre : t_state r = ERROR) by (destruct (t_state r); try discriminate Hx1; reflexivity);
-        rewrite (D_eh _ _ _ HD k r Hk Hre) in *; exact Hx2. }
+        rewrite (D_eh _ _ _ _ HD k r Hk Hre) in *; exact Hx2. }
     rewrite Ea, (existsb_regroup (fun p x => state_eqb x ERROR && negb (has_err_route sp p)) (tasks s) Hnames).
     apply Bool.eq_iff_eq_true. rewrite !existsb_exists. split; intros [p [Hpi Hx]]; exists p; (split; [exact Hpi|]);
       apply in_seq in Hpi; fold (states_named s p) in *.
@@ -1270,6 +1808,13 @@ Proof.
     - apply andb_true_iff in Hx. destruct Hx as [Hx1 Hx2]. rewrite <- (existsb_perm _ _ _ (Hst p ltac:(lia))) in Hx2.
       apply existsb_exists in Hx2. destruct Hx2 as [x [Hxi Hx2]]. apply existsb_exists. exists x. split; [exact Hxi|]. rewrite Hx2, Hx1. reflexivity. }
   rewrite E1, E2. destruct (existsb _ (seq 0 (length sp))); [reflexivity|]. destruct (existsb _ (seq 0 (length sp))); reflexivity.
+Qed.
+Theorem den_final_state u evs :
+  forallb plain4 evs = true ->
+  let s := run sp u evs in
+  wf_created s = true -> pend s = [] -> wf_state s = den_verdict.
+Proof.
+  intros He s Hc Hp. apply (den_final_state6 u evs (plain4_6 evs He) Hc Hp). apply plain4_not_paused; assumption.
 Qed.
 End Final.
 
@@ -1288,6 +1833,25 @@ Proof.
   eapply perm_trans; [exact B1|]. apply Permutation_sym. exact B2.
 Qed.
 
+(* a run that was paused and resumed by the operator, any number of times and at any points, ends with
+   the task executions, final task states and workflow state of a run that was never paused *)
+Theorem pause_resume_same_result sp u1 u2 evs1 evs2 :
+  simple_b sp = true -> forallb plain6 evs1 = true -> forallb plain4 evs2 = true ->
+  let s1 := run sp u1 evs1 in let s2 := run sp u2 evs2 in
+  wf_created s1 = true -> pend s1 = [] -> wf_state s1 <> PAUSED -> wf_created s2 = true -> pend s2 = [] ->
+  wf_state s1 = wf_state s2 /\
+  forall n, n < length sp ->
+    rows_named s1 n = rows_named s2 n /\ Permutation (states_named s1 n) (states_named s2 n).
+Proof.
+  intros Hs H1 H2 s1 s2 C1 P1 N1 C2 P2. split.
+  - unfold s1, s2. rewrite (den_final_state6 sp Hs u1 evs1 H1 C1 P1 N1), (den_final_state sp Hs u2 evs2 H2 C2 P2). reflexivity.
+  - intros n Hn.
+    destruct (den_correct6 sp Hs u1 evs1 H1 C1 P1 N1 n Hn) as [A1 B1].
+    destruct (den_correct sp Hs u2 evs2 H2 C2 P2 n Hn) as [A2 B2].
+    fold s1 in A1, B1. fold s2 in A2, B2. split; [congruence|].
+    eapply perm_trans; [exact B1|]. apply Permutation_sym. exact B2.
+Qed.
+
 (* ------------------------------------------------------------ non-vacuity *)
 (* 0 -> (1 | 2 twice: on-success and on-complete), 1 fails -> on-error 3, 2 (second run fails) -> 3 on-success *)
 Definition den_demo : spec :=
@@ -1303,3 +1867,24 @@ Example den_demo_ok :
   den den_demo = [1; 1; 2; 2] /\ map (rows_named s) [0; 1; 2; 3] = [1; 1; 2; 2] /\
   states_named s 2 = [SUCCESS; ERROR] /\ wf_state s = CANCELLED /\ den_verdict den_demo = CANCELLED /\ 30 < length evs.
 Proof. vm_compute. repeat split. apply Nat.leb_le. reflexivity. Qed.
+
+(* the same definition, paused twice by the operator: right after the start, and again after three
+   more deliveries; each time everything deliverable is delivered while PAUSED, then it is resumed *)
+Example pause_resume_demo_ok :
+  let sA := fst (step den_demo init EStart) in
+  let sB := fst (step den_demo sA EPause) in
+  let e1 := drain_evs den_demo sB 200 in
+  let sC := fst (step den_demo (steps den_demo sB e1) EResume) in
+  let e2 := firstn 3 (drain_evs den_demo sC 200) in
+  let sD := fst (step den_demo (steps den_demo sC e2) EPause) in
+  let e3 := drain_evs den_demo sD 200 in
+  let sE := fst (step den_demo (steps den_demo sD e3) EResume) in
+  let e4 := drain_evs den_demo sE 200 in
+  let evs1 := EStart :: EPause :: e1 ++ EResume :: e2 ++ EPause :: e3 ++ EResume :: e4 in
+  let evs2 := EStart :: drain_evs den_demo sA 200 in
+  let s1 := run den_demo [] evs1 in let s2 := run den_demo [] evs2 in
+  forallb plain6 evs1 = true /\ forallb plain4 evs2 = true /\
+  wf_created s1 = true /\ pend s1 = [] /\ wf_state s1 <> PAUSED /\ wf_created s2 = true /\ pend s2 = [] /\
+  wf_state (steps den_demo sB e1) = PAUSED /\ 0 < length e1 /\ wf_state (steps den_demo sD e3) = PAUSED /\ 0 < length e3 /\
+  wf_state s1 = CANCELLED /\ map (rows_named s1) [0; 1; 2; 3] = [1; 1; 2; 2] /\ evs1 <> evs2.
+Proof. vm_compute. repeat split; try discriminate; try (apply Nat.leb_le; reflexivity). Qed.
